@@ -16,10 +16,10 @@ git -C /repo worktree remove --force "$WT" 2>/dev/null
 git -C /repo worktree add -q "$WT" HEAD || exit 2
 cp "$OUT/demo_test.go" "$WT/$PKG/zz_seed_demo_test.go"
 L="$OUT/verify.log"; : > "$L"
-( cd "$WT" && go test -count=1 -run "${SEED_RUN:-TestSeed}" "./$PKG/" ) >>"$L" 2>&1; demo_without=$?
+( cd "$WT" && go test -count=1 -run "${SEED_RUN:-SeedDemo|TestSeed}" "./$PKG/" ) >>"$L" 2>&1; demo_without=$?
 ( cd "$WT" && git apply "$OUT/patch.diff" ) >>"$L" 2>&1; applied=$?
 ( cd "$WT" && go build ./... ) >>"$L" 2>&1; build=$?
-( cd "$WT" && go test -count=1 -run "${SEED_RUN:-TestSeed}" "./$PKG/" ) >>"$L" 2>&1; demo_with=$?
+( cd "$WT" && go test -count=1 -run "${SEED_RUN:-SeedDemo|TestSeed}" "./$PKG/" ) >>"$L" 2>&1; demo_with=$?
 rm -f "$WT/$PKG/zz_seed_demo_test.go"
 ( cd "$WT" && go test -count=1 $TESTPKGS ) >>"$L" 2>&1; tests=$?
 echo "seed $ID: applied=$applied build=$build demo_without=$demo_without(0 wanted) demo_with=$demo_with(!=0 wanted) repo_tests=$tests(0 wanted)"
